@@ -230,11 +230,20 @@ def run_case(case):
         if case["lane"] == "hist":
             present[names[0]] = False
         cfg = {}
+        via_cli = None
         if case["lane"] == "noacct":
-            cfg["backend.slurm.accounting_enabled"] = False
+            if case["foreign_seed"] % 3 == 0:
+                cfg["backend.slurm.accounting_enabled"] = False
+            else:
+                via_cli = ["no", "false"][case["foreign_seed"] % 2]  # set with `gwf config set`, as a user would
         write_project(proj, sched, names, present, cfg)
         sim = SimCluster(proj.simdir, sched)
         env = cli.env_for(proj.simdir, (sched,))
+        if via_cli:
+            rc_ = cli.gwf(proj.root, ["config", "set", "backend.slurm.accounting_enabled", via_cli], env, audit=False)
+            if rc_.rc != 0:
+                res.violation("crash", "gwf config set failed", **cli.crash_witness(rc_))
+                return res
         tracked = {}
         avoid = set()
         lane = case["lane"]
